@@ -7,10 +7,12 @@ pub struct ExUtf8Error(std::str::Utf8Error);
 pub uninterp spec fn r_of<'s>(b: Seq<u8>) -> Result<ProguardRecord<'s>, ParseError<'s>>;
 pub uninterp spec fn rest_of(b: Seq<u8>) -> Seq<u8>;
 
+// the item stream of a mapping: line terminators are skipped first (they carry no record -- also at the end of the input), then one item at a time
 pub open spec fn records<'s>(b: Seq<u8>) -> Seq<Result<ProguardRecord<'s>, ParseError<'s>>>
     decreases b.len()
 {
-    if b.len() == 0 || !(rest_of(b).len() < b.len()) { Seq::empty() } else { seq![r_of(b)] + records(rest_of(b)) }
+    let b1 = skip_nl(b);
+    if b1.len() == 0 || !(b1.len() <= b.len()) || !(rest_of(b1).len() < b1.len()) { Seq::empty() } else { seq![r_of(b1)] + records(rest_of(b1)) }
 }
 
 // C06: at most one item per input byte
@@ -18,5 +20,6 @@ pub proof fn lemma_records_len<'s>(b: Seq<u8>)
     ensures records(b).len() <= b.len(),
     decreases b.len(),
 {
-    if b.len() == 0 || !(rest_of(b).len() < b.len()) { } else { lemma_records_len(rest_of(b)); }
+    let b1 = skip_nl(b);
+    if b1.len() == 0 || !(b1.len() <= b.len()) || !(rest_of(b1).len() < b1.len()) { } else { lemma_records_len(rest_of(b1)); }
 }
